@@ -66,7 +66,7 @@ PACK_JUDGE = {"module": "Judge_Pack", "cfg": "Judge_Pack.cfg"}
 
 def pack_stage(name, universe, rulemode, prop, seed, extra_args=None, **kw):
     # user rules spell names literally: only the identity table is sound where rules refer to names
-    g = "0" if universe in ("ignore", "spell") else "0,%d" % (seed * 3 + 1)
+    g = "0" if universe in ("ignore", "spell", "lines") else "0,%d" % (seed * 3 + 1)
     d = dict(name=name, module="MC_Pack", cfg="MC_Pack.cfg", family="pack",
              overrides={"Universe": '"%s"' % universe, "RuleMode": '"%s"' % rulemode},
              vh_args=["-props", prop, "-gamma", g] + (extra_args or []), judge=PACK_JUDGE, exhaustive=True)
@@ -93,6 +93,7 @@ def pack_stages(prop, tier, seed):
     if prop in ("C05", "C20", "C19"):
         st = [pack_stage("safety", "safetyq" if q else "safety", "none", prop, seed, timeout=3000)]
         if prop == "C19":
+            st.append(pack_stage("rulelines", "lines", "none", prop, seed))
             st += [s2 for s2 in addr_stages("C07", tier, seed)]
             for s2 in st[1:]:
                 s2["vh_args"] = ["-props", "C19"]
@@ -155,8 +156,10 @@ def builder_stages(prop, tier, seed):
                                                   "Subs": "<- MCSubs1"})
     fan = builder_stage("fan", prop, seed, {"MaxEdges": "4", "MaxAdds": "1", "Adds": "<- MCAddsR", "RegPkgs": "{}"})
     coal = builder_stage("coalesce", prop, seed, {"Contents": "{1, 2}", "MetaFlags": "{TRUE, FALSE}", "MaxEdges": "1", "Adds": "<- MCAddsR"})
+    sched = builder_stage("sched", prop, seed, {"Callers": '{"c1", "c2"}', "MaxAdds": "1" if q else "2", "Adds": "<- MCAddsR", "RegPkgs": "{}",
+                                                 "Concurrent": "TRUE", "MaxEdges": "2", "LocalRels": "<- MCLocalRels0"})
     if prop == "C14":
-        return [base, fan] if q else [base, fan, builder_stage("graph3", prop, seed, {"MaxEdges": "3", "Finders": '{"F1", "F2"}', "Adds": "<- MCAdds3", "Pkgs": '{"P1", "P2", "P3"}'}, sim={"num": 40000, "depth": 60}, workers=1)]
+        return [base, fan, sched] if q else [base, fan, sched, builder_stage("graph3", prop, seed, {"MaxEdges": "3", "Finders": '{"F1", "F2"}', "Adds": "<- MCAdds3", "Pkgs": '{"P1", "P2", "P3"}'}, sim={"num": 40000, "depth": 60}, workers=1)]
     if prop == "C08":
         return [base, coal, fan] if q else [base, coal, fan, vers]
     if prop == "C17":
@@ -169,7 +172,7 @@ def builder_stages(prop, tier, seed):
         wfault = pack_stage("writefaults", "rt", "none", prop, seed, extra_args=["-mode", "wfaults"])
         return [faults, ufault, wfault]
     if prop == "C13":
-        return [coal, base] if not q else [coal]
+        return [coal, base, sched] if not q else [coal, sched]
     if prop == "C09":
         return [coal] if q else [coal, vers, base]
     raise KeyError(prop)
